@@ -203,6 +203,8 @@ func runC01(c *eng.Ctx) {
 
 	c.Rule("GUARD", "kv{a table builder is abandoned only when it holds no key}", func() { abandonOnlyWhenNoKeys(c) })
 
+	c.Rule("UNION", "kv.family.deleteObsoleteFiles{keep-set}", func() { obsoleteKeepSet(c) })
+
 	// ---- 3. compaction ---------------------------------------------------------------------------------------------
 	c.Rule("ORDER", cjT+"{close<register; merge(ok)<install; cleanup after install}", func() {
 		f := c.Fn(cjT + ".finishCompactionOutputFile")
@@ -254,50 +256,7 @@ func runC01(c *eng.Ctx) {
 	})
 
 	// ---- 5/6. commit of an edit log -----------------------------------------------------------------------------------
-	c.Rule("ATOMIC", vsT+".CommitFamilyEditLog", func() {
-		f := c.Fn(vsT + ".CommitFamilyEditLog")
-		ls := p.Locks(f, nil)
-		add := c.One(f, invokeOn("editLog", "Add"), "editLog.Add(NewNextFileNumber(..))")
-		per := c.One(f, eng.CallTo(vsT+".persistEditLogs"), "persistEditLogs")
-		app := c.One(f, invokeOn("editLog", "apply"), "editLog.apply(newVersion)")
-		ins := c.One(f, invokeOn("", "appendVersion"), "familyVersion.appendVersion")
-		steps := []eng.Site{add, per, app, ins}
-		names := []string{"next-file-number-record", "persist", "apply", "install"}
-		for i := 1; i < len(steps); i++ {
-			c.Check(eng.DominatedBy(f, steps[i].Instr, []eng.Site{steps[i-1]}, nil), names[i-1]+"<"+names[i], steps[i].Instr, f, names[i-1]+" precedes "+names[i]+" on every path", "")
-			ok, why := ls.SameHold(steps[0].Instr, steps[i].Instr, vsMu, true)
-			c.Check(ok, "one-hold:"+names[i], steps[i].Instr, f, "record, persist, apply and install happen in one write hold of the version set mutex (commits never interleave)", why)
-		}
-		commitBaseInHold(c)
-		ok, why := eng.OkDominates(f, per.Instr, app.Instr)
-		c.Check(ok, "apply-only-if-persisted", app.Instr, f, "the new version is built and installed only after the record was persisted successfully", why)
-		la := eng.CallArgs(add.Instr.(*ssa.Call))[0]
-		okN := false
-		if lc, ok := la.(*ssa.Call); ok && inList(strings.Join(p.CalleeKeys(lc), ""), []string{"kv/version.NewNextFileNumber"}) {
-			okN = eng.DependsOnField(eng.CallArgs(lc)[0], vsT+".nextFileNumber")
-		}
-		c.Check(okN, "records-next-file-number", add.Instr, f, "every committed record carries the current next-file-number (a recovered store never reuses a number)", "adds "+p.Desc(la))
-		pa := eng.CallArgs(per.Instr.(*ssa.Call))
-		c.Check(strings.HasSuffix(p.Desc(pa[0]), ".manifest") && eng.DependsOn(pa[1], func(x ssa.Value) bool { return x == ssa.Value(f.Params[2]) }), "persists-this-log-to-manifest", per.Instr, f,
-			"the persisted record is this edit log, written to the live manifest", p.Desc(pa[0])+", "+p.Desc(pa[1]))
-		av := eng.CallArgs(app.Instr.(*ssa.Call))[0]
-		c.Check(strings.Contains(p.Desc(av), "Clone()") && eng.CallArgs(ins.Instr.(*ssa.Call))[0] == av, "apply-to-clone-then-install-it", app.Instr, f,
-			"the edit is applied to a clone of the current version and that clone is what gets installed", "applies to "+p.Desc(av))
-		// the counter
-		owner(c, "store to storeVersionSet.nextFileNumber/manifestFileNumber", eng.StoreField(vsT+".nextFileNumber", vsT+".manifestFileNumber"),
-			[]string{vsT + ".NextFileNumber", vsT + ".setNextFileNumberWithoutLock", "kv/version.NewStoreVersionSet"}, 3)
-		nf := c.Fn(vsT + ".NextFileNumber")
-		for _, s := range c.Some(nf, eng.StoreField(vsT+".nextFileNumber"), "nextFileNumber.Inc") {
-			c.Check(p.Locks(nf, nil).At(s.Instr).HasField(vsMu, true), "allocate-under-lock", s.Instr, nf, "file numbers are allocated under the version set mutex", "")
-		}
-		owner(c, "call of setNextFileNumberWithoutLock", eng.AnyCallTo(vsT+".setNextFileNumberWithoutLock", "kv/version.StoreVersionSet.setNextFileNumberWithoutLock"),
-			[]string{"kv/version.nextFileNumber.applyVersionSet"}, 1)
-		owner(c, "call of StoreLog.applyVersionSet", eng.AnyCallTo("kv/version.StoreLog.applyVersionSet", "kv/version.nextFileNumber.applyVersionSet", "kv/version.editLog.applyVersionSet", "kv/version.EditLog.applyVersionSet"),
-			[]string{"kv/version.editLog.apply", "kv/version.editLog.applyVersionSet", vsT + ".recover"}, 3)
-		owner(c, "call of EditLog.apply", eng.AnyCallTo("kv/version.editLog.apply", "kv/version.EditLog.apply"), []string{vsT + ".CommitFamilyEditLog", vsT + ".applyFamilyVersion"}, 2)
-		owner(c, "call of storeVersionSet.recover/applyFamilyVersion", eng.AnyCallTo(vsT+".recover", vsT+".applyFamilyVersion"), []string{vsT + ".Recover", vsT + ".recover"}, 2)
-		owner(c, "call of StoreVersionSet.Recover", eng.AnyCallTo(vsT+".Recover", "kv/version.StoreVersionSet.Recover"), []string{"kv.newStore"}, 1)
-	})
+	c.Rule("ATOMIC", vsT+".CommitFamilyEditLog", func() { commitFamilyEditLogAtomic(c) })
 
 	// ---- 7/8. journal creation and CURRENT switch -----------------------------------------------------------------------
 	c.Rule("ORDER", vsT+".initJournal", func() {
@@ -837,4 +796,51 @@ func logCodecs(c *eng.Ctx) {
 		l, ok := in.(*ssa.Lookup)
 		return ok && strings.HasSuffix(p.Desc(l.X), "newLogFuncMap")
 	})) > 0, "dispatch-through-registry", nil, u, "unmarshal constructs each record through the registry keyed by the type tag", "")
+}
+
+func commitFamilyEditLogAtomic(c *eng.Ctx) {
+	p := c.P
+	_ = p
+	f := c.Fn(vsT + ".CommitFamilyEditLog")
+	ls := p.Locks(f, nil)
+	add := c.One(f, invokeOn("editLog", "Add"), "editLog.Add(NewNextFileNumber(..))")
+	per := c.One(f, eng.CallTo(vsT+".persistEditLogs"), "persistEditLogs")
+	app := c.One(f, invokeOn("editLog", "apply"), "editLog.apply(newVersion)")
+	ins := c.One(f, invokeOn("", "appendVersion"), "familyVersion.appendVersion")
+	steps := []eng.Site{add, per, app, ins}
+	names := []string{"next-file-number-record", "persist", "apply", "install"}
+	for i := 1; i < len(steps); i++ {
+		c.Check(eng.DominatedBy(f, steps[i].Instr, []eng.Site{steps[i-1]}, nil), names[i-1]+"<"+names[i], steps[i].Instr, f, names[i-1]+" precedes "+names[i]+" on every path", "")
+		ok, why := ls.SameHold(steps[0].Instr, steps[i].Instr, vsMu, true)
+		c.Check(ok, "one-hold:"+names[i], steps[i].Instr, f, "record, persist, apply and install happen in one write hold of the version set mutex (commits never interleave)", why)
+	}
+	commitBaseInHold(c)
+	ok, why := eng.OkDominates(f, per.Instr, app.Instr)
+	c.Check(ok, "apply-only-if-persisted", app.Instr, f, "the new version is built and installed only after the record was persisted successfully", why)
+	la := eng.CallArgs(add.Instr.(*ssa.Call))[0]
+	okN := false
+	if lc, ok := la.(*ssa.Call); ok && inList(strings.Join(p.CalleeKeys(lc), ""), []string{"kv/version.NewNextFileNumber"}) {
+		okN = eng.DependsOnField(eng.CallArgs(lc)[0], vsT+".nextFileNumber")
+	}
+	c.Check(okN, "records-next-file-number", add.Instr, f, "every committed record carries the current next-file-number (a recovered store never reuses a number)", "adds "+p.Desc(la))
+	pa := eng.CallArgs(per.Instr.(*ssa.Call))
+	c.Check(strings.HasSuffix(p.Desc(pa[0]), ".manifest") && eng.DependsOn(pa[1], func(x ssa.Value) bool { return x == ssa.Value(f.Params[2]) }), "persists-this-log-to-manifest", per.Instr, f,
+		"the persisted record is this edit log, written to the live manifest", p.Desc(pa[0])+", "+p.Desc(pa[1]))
+	av := eng.CallArgs(app.Instr.(*ssa.Call))[0]
+	c.Check(strings.Contains(p.Desc(av), "Clone()") && eng.CallArgs(ins.Instr.(*ssa.Call))[0] == av, "apply-to-clone-then-install-it", app.Instr, f,
+		"the edit is applied to a clone of the current version and that clone is what gets installed", "applies to "+p.Desc(av))
+	// the counter
+	owner(c, "store to storeVersionSet.nextFileNumber/manifestFileNumber", eng.StoreField(vsT+".nextFileNumber", vsT+".manifestFileNumber"),
+		[]string{vsT + ".NextFileNumber", vsT + ".setNextFileNumberWithoutLock", "kv/version.NewStoreVersionSet"}, 3)
+	nf := c.Fn(vsT + ".NextFileNumber")
+	for _, s := range c.Some(nf, eng.StoreField(vsT+".nextFileNumber"), "nextFileNumber.Inc") {
+		c.Check(p.Locks(nf, nil).At(s.Instr).HasField(vsMu, true), "allocate-under-lock", s.Instr, nf, "file numbers are allocated under the version set mutex", "")
+	}
+	owner(c, "call of setNextFileNumberWithoutLock", eng.AnyCallTo(vsT+".setNextFileNumberWithoutLock", "kv/version.StoreVersionSet.setNextFileNumberWithoutLock"),
+		[]string{"kv/version.nextFileNumber.applyVersionSet"}, 1)
+	owner(c, "call of StoreLog.applyVersionSet", eng.AnyCallTo("kv/version.StoreLog.applyVersionSet", "kv/version.nextFileNumber.applyVersionSet", "kv/version.editLog.applyVersionSet", "kv/version.EditLog.applyVersionSet"),
+		[]string{"kv/version.editLog.apply", "kv/version.editLog.applyVersionSet", vsT + ".recover"}, 3)
+	owner(c, "call of EditLog.apply", eng.AnyCallTo("kv/version.editLog.apply", "kv/version.EditLog.apply"), []string{vsT + ".CommitFamilyEditLog", vsT + ".applyFamilyVersion"}, 2)
+	owner(c, "call of storeVersionSet.recover/applyFamilyVersion", eng.AnyCallTo(vsT+".recover", vsT+".applyFamilyVersion"), []string{vsT + ".Recover", vsT + ".recover"}, 2)
+	owner(c, "call of StoreVersionSet.Recover", eng.AnyCallTo(vsT+".Recover", "kv/version.StoreVersionSet.Recover"), []string{"kv.newStore"}, 1)
 }
